@@ -54,7 +54,7 @@
 From Coq Require Import String List NArith.
 From ApiFu Require Import Base.Sexp Feat.FeaturesModel Feat.FeaturesSpec Feat.FeaturesProofs Feat.FeaturesReach
   Feat.FeaturesDocModel Feat.FeaturesDocProofs Feat.FeaturesFuelProofs.
-From ApiFu Require Vld.Ast Vld.TypeInfoModel Vld.ValidatorModel Feat.FeaturesVld.
+From ApiFu Require Vld.Ast Vld.Inspect Vld.TypeInfoModel Vld.ValidatorModel Vld.ProofsCommon Feat.FeaturesVld Feat.FeaturesVldRules.
 Import ListNotations.
 Open Scope string_scope.
 Open Scope list_scope.
@@ -196,28 +196,31 @@ Theorem C13_ws_features_fixed_at_init : forall h env F,
   forall o, In o (ws_effective env (Some F) h) -> o = Some F.
 Proof. exact ws_frozen. Qed.
 
-(** ** composition with C04's validator model (coq/Vld, imported read-only; Feat/FeaturesVld.v)
+(** ** composition with C04's validator model (coq/Vld, imported read-only; Feat/FeaturesVld.v,
+    Feat/FeaturesVldRules.v)
 
-    C04's [validate_model q pi S F D] takes the feature set and does its own gating.  Full statement
-    wanted, for [vok S] (the feature rules of schema.New in C04's vocabulary) and F ⊆ G:
-        validate_model q pi S F D = validate_model q pi (verase S F) G D     for every document D.
-    Proved from C04's definitions, for every document (arguments, variables, directives and value
-    literals included):
-      - NewTypeInfo fills every slot alike ([C13_C04_type_info_eq]);
-      - the rule groups fragment declarations, arguments, directives (document and operations do not
-        look at the schema) answer alike on any document ([C13_C04_small_rule_groups]);
-      - the rule group variables answers alike on the document NewTypeInfo annotated
-        ([C13_C04_variables_rule]).
-    Open, gap named:
-      - fragment spreads: FALSE on C04's model as it stands — its [possible_types] transcribes
-        getPossibleTypes without the feature filter of the repaired code
-        ([C13_C04_spread_rule_refuted_as_modelled]: the C13 witness in C04's encoding); needs the
-        filter [t_req ⊆ F] over [s_impls] in Vld/ValidatorModel.v, then closes like QPossibleV here;
-      - fields (incl. merging), values: follow from [C13_C04_type_info_eq] once it is
-        shown that every slot of the annotated document (scope, field definition, expected type)
-        holds a type visible to F — the invariant the lemmas of FeaturesVld.v carry
-        through NewTypeInfo ([vis_scope], [vis_field], [vis_osty]) but that is not yet stated on
-        the output document. *)
+    C04's [validate_model q pi S F D] takes the feature set and does its own gating.  For [vok S]
+    (the feature rules of schema.New in C04's vocabulary), F ⊆ G and a map-iteration order [pi] that
+    is a permutation, proved from C04's definitions for EVERY document (arguments, variables,
+    directives, value literals, equal response keys and the field-merging rule included):
+
+        validate_model q pi (verase S F) G D = validate_model q pi S F D        ([C13_C04_validate_eq])
+
+    under ONE further hypothesis [PT]: getPossibleTypes of a type the request may see answers alike
+    on both schemas.  C04's [possible_types] still transcribes getPossibleTypes without the feature
+    filter of the repaired code; so [PT] is explicit, it is discharged for schemas in which no
+    implementation listed for a visible interface is gated ([C13_C04_validate_eq_no_gated_impls]),
+    and [C13_C04_spread_rule_refuted_as_modelled] shows that it cannot be dropped on the model as
+    it stands.  When C04's [possible_types] filters [s_impls] by [t_req ⊆ F], [PT] becomes a lemma
+    (the argument of [ask_erase], QPossibleV), the refutation witness stops compiling and is to be
+    replaced by the unconditional theorem.
+    The parts, each a theorem of its own:
+      - [C13_C04_type_info_eq]: NewTypeInfo fills every slot alike;
+      - [C13_C04_slots_visible]: every slot of the annotated document (selection-set scope, field
+        definition, expected type of a value, variable type) holds only types visible to F;
+      - [C13_C04_small_rule_groups], [C13_C04_variables_rule], [C13_C04_fields_rule] (both passes,
+        the second being the field-merging rule), [C13_C04_values_rule]: the rule groups answer
+        alike, without [PT]. *)
 Theorem C13_C04_type_info_eq : forall (S : Vld.Ast.schema) (F G : Vld.Ast.features) q (D : Vld.Ast.document),
   FeaturesVld.vok S = true -> Vld.Ast.subset F G = true ->
   TypeInfoModel.type_info q (FeaturesVld.verase S F) G D = TypeInfoModel.type_info q S F D.
@@ -238,6 +241,45 @@ Theorem C13_C04_variables_rule : forall (S : Vld.Ast.schema) (F G : Vld.Ast.feat
   TypeInfoModel.type_info q S F D = Some A ->
   ValidatorModel.rule_variables pi (FeaturesVld.verase S F) A = ValidatorModel.rule_variables pi S A.
 Proof. exact (fun S F G q pi D A Hok HFG => FeaturesVld.rule_variables_erase S F G Hok HFG q pi D A). Qed.
+
+Theorem C13_C04_slots_visible : forall (S : Vld.Ast.schema) (F G : Vld.Ast.features) q (D A : Vld.Ast.document),
+  FeaturesVld.vok S = true -> Vld.Ast.subset F G = true ->
+  TypeInfoModel.type_info q S F D = Some A ->
+  forall n, In n (Inspect.tree_nodes (Inspect.tree_doc A)) -> FeaturesVldRules.wa_node S F n.
+Proof. exact (fun S F G q D A Hok HFG TI => FeaturesVldRules.type_info_nodes_ok S F G Hok HFG q D A TI). Qed.
+
+Theorem C13_C04_fields_rule : forall (S : Vld.Ast.schema) (F G : Vld.Ast.features) pi q (D A : Vld.Ast.document),
+  FeaturesVld.vok S = true -> Vld.Ast.subset F G = true -> ProofsCommon.order_ok pi ->
+  TypeInfoModel.type_info (ValidatorModel.q_unwrap_obj q) S F D = Some A ->
+  ValidatorModel.rule_fields q pi (FeaturesVld.verase S F) G A = ValidatorModel.rule_fields q pi S F A.
+Proof.
+  exact (fun S F G pi q D A Hok HFG Hpi TI =>
+           FeaturesVldRules.rule_fields_erase S F G Hok HFG pi Hpi q A
+             (FeaturesVldRules.type_info_nodes_ok S F G Hok HFG _ D A TI)).
+Qed.
+
+Theorem C13_C04_values_rule : forall (S : Vld.Ast.schema) (F G : Vld.Ast.features) pi q (D A : Vld.Ast.document),
+  FeaturesVld.vok S = true -> Vld.Ast.subset F G = true ->
+  TypeInfoModel.type_info (ValidatorModel.q_unwrap_obj q) S F D = Some A ->
+  ValidatorModel.rule_values q pi (FeaturesVld.verase S F) A = ValidatorModel.rule_values q pi S A.
+Proof.
+  exact (fun S F G pi q D A Hok HFG TI =>
+           FeaturesVldRules.rule_values_erase S F Hok pi q A
+             (FeaturesVldRules.type_info_nodes_ok S F G Hok HFG _ D A TI)).
+Qed.
+
+Theorem C13_C04_validate_eq : forall (S : Vld.Ast.schema) (F G : Vld.Ast.features) pi q (D : Vld.Ast.document),
+  FeaturesVld.vok S = true -> Vld.Ast.subset F G = true -> ProofsCommon.order_ok pi ->
+  (forall tn, FeaturesVld.vvisible S F tn = true ->
+              ValidatorModel.possible_types (FeaturesVld.verase S F) tn = ValidatorModel.possible_types S tn) ->
+  ValidatorModel.validate_model q pi (FeaturesVld.verase S F) G D = ValidatorModel.validate_model q pi S F D.
+Proof. exact (fun S F G pi q D Hok HFG Hpi PT => FeaturesVldRules.validate_eq S F G Hok HFG pi Hpi PT q D). Qed.
+
+Theorem C13_C04_validate_eq_no_gated_impls : forall (S : Vld.Ast.schema) (F G : Vld.Ast.features) pi q (D : Vld.Ast.document),
+  FeaturesVld.vok S = true -> Vld.Ast.subset F G = true -> ProofsCommon.order_ok pi ->
+  FeaturesVld.vnodup (map fst (Vld.Ast.s_impls S)) = true -> FeaturesVldRules.impls_visible S F ->
+  ValidatorModel.validate_model q pi (FeaturesVld.verase S F) G D = ValidatorModel.validate_model q pi S F D.
+Proof. exact (fun S F G pi q D => FeaturesVldRules.validate_eq_no_gated_impls S F G pi q D). Qed.
 
 Theorem C13_C04_spread_rule_refuted_as_modelled :
   FeaturesVld.vok FeaturesVld.VW = true /\ Vld.Ast.subset nil (cons FeaturesVld.vfa nil) = true /\
@@ -386,6 +428,11 @@ Print Assumptions C13_ws_features_fixed_at_init.
 Print Assumptions C13_C04_type_info_eq.
 Print Assumptions C13_C04_small_rule_groups.
 Print Assumptions C13_C04_variables_rule.
+Print Assumptions C13_C04_slots_visible.
+Print Assumptions C13_C04_fields_rule.
+Print Assumptions C13_C04_values_rule.
+Print Assumptions C13_C04_validate_eq.
+Print Assumptions C13_C04_validate_eq_no_gated_impls.
 Print Assumptions C13_C04_spread_rule_refuted_as_modelled.
 Print Assumptions C13_erase_schema_ok.
 Print Assumptions C13_enabling_is_monotone.
